@@ -523,7 +523,7 @@ class World:
         self.removed = set(removed)
         self.g.removed = set(removed)
 
-    def op_read(self, kind, policy="fifo", midtamper=None):
+    def op_read(self, kind, policy="fifo", midtamper=None, vanish=False):
         node = self.fresh_node(kind)
         del MAPLOG[:]
         self.g.policy = policy
@@ -552,7 +552,10 @@ class World:
             res = {"kind": "livelock"}
         else:
             res = {"kind": "error", "what": r}
-        self.events.append({"ev": "Read", "node": kind, "res": res, "mid": midtamper is not None})
+        ev = {"ev": "Read", "node": kind, "res": res, "mid": midtamper is not None}
+        if vanish:
+            ev["vanish"] = True
+        self.events.append(ev)
         return res
 
     def op_check(self, kind, verify):
@@ -872,6 +875,38 @@ def scen_c10(g, fg, rng, idx, thorough):
                 if t:
                     w.put(s_, sh_, w.lay[(s_, sh_)]["v"], t[1], t[0], "mid:" + t[2])
         w.op_read(trng.choice(["ro", "rw"]), midtamper=mid)
+    w.set_up([])
+    return w.trace("c10")
+
+
+def scen_c10_vanish(g, fg, rng, idx, thorough):
+    """A file whose shares are larger than the reader's first read (so its blocks are fetched after the survey), all N shares
+    intact on distinct servers; after the survey of a read one share vanishes (deleted, expired, lost): k intact shares that
+    the survey saw remain, the read has to deliver the newest version."""
+    fmt = rng.choice(["SDMF", "MDMF"])
+    w = World(g, fg, fmt, rng, 2, 3)
+    w.prehistory = 0
+    saved = pubmod.DEFAULT_MUTABLE_MAX_SEGMENT_SIZE
+    pubmod.DEFAULT_MUTABLE_MAX_SEGMENT_SIZE = rng.choice([2048, 4096, 131072])
+    try:
+        w.create(w.new_content(9000, 12000))
+        if rng.random() < 0.5:
+            w.publish_all_up(w.new_content(9000, 12000))
+    finally:
+        pubmod.DEFAULT_MUTABLE_MAX_SEGMENT_SIZE = saved
+    newest = len(w.vers)
+    w.wipe()
+    base_layout(w, newest, rng)
+    w.set_up([])
+    w.ev_layout()
+    victim = rng.choice(sorted(w.lay))
+    if rng.random() < 0.6:
+        victim = min(w.lay, key=lambda sk: sk[1])          # the lowest share number: the one a reader fetches first
+
+    def mid():
+        w.delete(*victim)
+    w.op_read(rng.choice(["ro", "rw"]), midtamper=mid, vanish=True)
+    w.op_read(rng.choice(["ro", "rw"]))
     w.set_up([])
     return w.trace("c10")
 
@@ -1205,6 +1240,8 @@ def main():
                 tr = scen_c14_stale(g, fg, rng, i, thorough)
             elif a.family == "C14" and i >= a.n0:
                 tr = scen_c14_midwrite(g, fg, rng, i, thorough)        # (the additional histories at the end of the run)
+            elif a.family == "C10" and i % 8 == 3 and ns >= 3:
+                tr = scen_c10_vanish(g, fg, rng, i, thorough)
             else:
                 tr = SCENS[a.family](g, fg, rng, i, thorough)
         tr["consts"]["idx"] = i
